@@ -226,6 +226,7 @@ func runC06(c *Ctx) {
 	r.Clauses = []string{
 		"C06.W every memdb write on a non-index table in package state is followed, on every feasible non-failing path (in the same function or in every caller up to 3 frames), by a bump of an index key its readers consult",
 		"C06.W0 the index setters only skip the write when the stored index is already >= the new one",
+		"C06.X the 'service exists' argument of the per-service index lookup is the constant true or an accumulator updated on every iteration over the service's instances (so it is false only when there is none): otherwise the older extinction index is reported for a live service",
 		"C06.Q the blocking-query loop sets query meta after every query run and returns only on index progress, error, timeout or abandon; the reported index is never zero",
 	}
 	r.NotDecided = []string{
@@ -276,6 +277,7 @@ func runC06(c *Ctx) {
 	r.Floor("C06.W", 83)
 	checkReaderIndexSources(c)
 	checkBlockingQueryLoop(c)
+	checkServiceExistsArgument(c)
 }
 
 // ---------------------------------------------------------------------------
